@@ -1,6 +1,8 @@
 //! Case generators for engine `cnf`: abstract values rendered through a layout grammar
 //! (C07, C03), the crate's own writers (C03), mutations and arbitrary bytes (C01, C05, C06),
-//! single-token corruptions with known position (C08), faults (C04), line sources (C09).
+//! single-token corruptions with known position (C08), faults (C04), line sources (C09);
+//! junk tokens (`junk_run`: a run of one byte value, every value, length around the small source
+//! constants) where a token is expected, in `corrupt` (known position) and `mutate`.
 use crate::common::*;
 use crate::eng_cnf::Case;
 use flussab::DeferredWriter;
@@ -401,11 +403,72 @@ fn extreme_numeral(rng: &mut Rng) -> Vec<u8> {
     }
 }
 
+/// Lengths for a junk token: the neighbourhood `c-1, c, c+1, c+4, 2c` of every SMALL constant
+/// (`<= 4096`) of the current source (`common::source_consts`: a cap on the bytes quoted in an
+/// error message, a window or word size, … whatever the code compares a length against), plus the
+/// word sizes.  The scale families do the same for the large constants.
+pub fn junk_lengths() -> &'static Vec<Vec<usize>> {
+    static L: std::sync::OnceLock<Vec<Vec<usize>>> = std::sync::OnceLock::new();
+    L.get_or_init(|| {
+        let mut cs: Vec<u64> = source_consts().into_iter().filter(|&c| c >= 1 && c <= 4096).collect();
+        cs.extend([1, 2, 7, 8, 16, 64]);
+        cs.sort();
+        cs.dedup();
+        cs.iter().map(|&c| { let c = c as usize; vec![(c - 1).max(1), c, c + 1, c + 4, 2 * c] }).collect()
+    })
+}
+
+/// A junk token: a run of ONE byte value.  Every value 0..=255 occurs; the weight is on the
+/// classes a byte-classifying loop tells apart (UTF-8 continuation bytes 0x80..=0xbf, lead bytes
+/// 0xc0.., 0xff, NUL, digits, the sign) and on the borders between them.  The length comes from
+/// `junk_lengths`.
+pub fn junk_run(rng: &mut Rng) -> Vec<u8> {
+    let b: u8 = match rng.below(12) {
+        0 | 1 | 2 => 0x80 + rng.below(0x40) as u8,
+        3 | 4 => 0xc0 + rng.below(0x38) as u8,
+        5 => *rng.pick(&[0xffu8, 0xff, 0xfe, 0xf8, 0xfb]),
+        6 => 0,
+        7 => b'0' + rng.below(10) as u8,
+        8 => b'-',
+        9 => *rng.pick(&[0x7fu8, 0x80, 0xbf, 0xc0, 0xc1, 0xc2, 0xdf, 0xe0, 0xef, 0xf0, 0xf4, 0xf5, 0xf7, 0xf8, 0x1f, 0x21, 0x2f, 0x3a]),
+        _ => rng.below(256) as u8,
+    };
+    let around = rng.pick(junk_lengths());
+    let n = *rng.pick(around);
+    vec![b; n]
+}
+
+/// Offsets at which a token can start: the start of the input, and after every blank / line end.
+pub fn token_starts(b: &[u8]) -> Vec<usize> {
+    std::iter::once(0)
+        .chain(b.iter().enumerate().filter(|(_, c)| matches!(**c, b' ' | b'\t' | b'\n' | b'\r')).map(|(i, _)| i + 1))
+        .collect()
+}
+
+/// Insert a junk token into a document: at a token start (so that it is what the parser finds
+/// where it expects a token), glued to what follows or set off by a blank; sometimes anywhere.
+pub fn insert_junk(rng: &mut Rng, b: &mut Vec<u8>) {
+    let mut run = junk_run(rng);
+    let at = if rng.chance(1, 5) { rng.range(0, b.len() as u64) as usize } else { *rng.pick(&token_starts(b)) };
+    if rng.chance(1, 2) {
+        run.push(*rng.pick(b"  \n\t"));
+    }
+    b.splice(at..at, run);
+}
+
 pub fn mutate(rng: &mut Rng, mut b: Vec<u8>) -> Vec<u8> {
     // a literal of the current source (keyword, magic prefix …) spliced into the otherwise
     // unchanged document, half of the time as the only change
     if rng.chance(1, 4) {
         splice_literal(rng, &mut b);
+        if rng.chance(1, 2) {
+            return b;
+        }
+    }
+    // a junk token (a run of one byte value, length around the small source constants) where a
+    // token is expected, half of the time as the only change
+    if rng.chance(1, 8) {
+        insert_junk(rng, &mut b);
         if rng.chance(1, 2) {
             return b;
         }
@@ -543,9 +606,23 @@ pub fn gen_case(rng: &mut Rng, opt: &str, _thorough: bool) -> String {
                 _ => match kind { TokKind::Zero => b"x".to_vec(), _ => b"1x".to_vec() },
             };
             let mut b = r.bytes.clone();
-            b.splice(off..off + n, repl.clone());
-            case.data = b;
-            case.tok = Some((l, c, repl.len()));
+            if rng.chance(1, 5) {
+                // the token replaced by a junk run, or a junk run glued to its front: the error
+                // is on the junk (no claim where the run reads as blanks, digits, a sign in
+                // front of a numeral, or opens a comment / header line)
+                let run = junk_run(rng);
+                let glued = rng.chance(1, 3);
+                let jb = run[0];
+                let no_claim = matches!(jb, b' ' | b'\t' | b'\n' | b'\r' | b'c' | b'p') || jb.is_ascii_digit() || (jb == b'-' && glued);
+                let span = if glued { run.len() + n } else { run.len() };
+                if glued { b.splice(off..off, run); } else { b.splice(off..off + n, run); }
+                case.data = b;
+                case.tok = if no_claim { None } else { Some((l, c, span)) };
+            } else {
+                b.splice(off..off + n, repl.clone());
+                case.data = b;
+                case.tok = Some((l, c, repl.len()));
+            }
         }
         "fault" => {
             let doc = gen_doc(rng, fmt, tmax, cfg);
